@@ -17,36 +17,36 @@ NOTES = ("Technique family: machine-checked proof in Lean 4 (model + theorems) w
 
 LEVEL = {
     "C01": dict(engine="book", design_ref="DESIGN.md 6/C01",
-                technique="Lean 4 theorems (fill rule, head-of-queue matching, remainder handling, reference-engine queue position) + differential correspondence against a reference matching engine",
-                text="Theorems over all inputs about the Lean model of the matching loop (each fill at the passive price for the min volume, the loop trades only with the head of the priority queue, stops exactly when exhausted or uncrossed, limit remainder queued with a fresh larger stamp, market remainder never rests) and about the reference engine's queue position; the model and the reference engine are compared with the real OrderBook after every operation of seeded histories. Full refinement theorem Layer I -> Ref is in progress (stated in DESIGN.md 3.3).",
+                technique="Lean 4 refinement proof (implementation model -> reference matching engine, every operation, every history, every observation; no bound) + queue-sortedness invariant + differential correspondence of model and reference engine against the real OrderBook",
+                text="implementation_is_reference_engine: for every valid fault-free operation sequence from a new book the result of every operation and the complete observation after it (orders, trades, all views) equal those of the reference engine Ref (proved by an abstraction map that forgets keys, stamps and aggregates; match loop by induction on fuel); queues_sorted_by_price and ref_match_consumes_prefix give best-price-first / earliest-first for every reachable state; fill rule and remainder handling. The model and Ref are compared with the real OrderBook after every operation of seeded histories (testing; this is the tie).",
                 note=BOOK_NOTE),
     "C02": dict(engine="book", design_ref="DESIGN.md 6/C02",
-                technique="Lean 4 theorems (views agree, sentinels, initial views) + model-free audit recomputing every view from get_orders() after every operation",
-                text="Theorems: level-1/level-2 records are built from the scalar getters, sentinels on empty sides, a new book publishes the recomputation for every level count; decisive per-run part: the Lean audit predicate recomputes all views from the implementation's own order list after every op (no model involved) and checks uncrossedness while trading was never disabled.",
+                technique="Lean 4 invariant proof over all operation histories (every published view = recomputation from the order list, incl. wrapping level probes) + model-free audit recomputing every view from get_orders() after every operation",
+                text="published_data_equals_resting_orders / audit_c02_passes: in every state reachable by any valid fault-free history (any tick, any level count whose probes stay below 2^32: ticks <= 10, n <= 24 by probe_range_ok) touch prices with sentinels, totals, touch volume/count, every level pair, level-1/2 and the mid equal Spec.Views of the order list; aggregates_exact, queue_empty_iff. never_crossed / audit_uncrossed_passes: on a book created with trading enabled and never disabled the best bid is strictly below the best ask whenever both sides are non-empty (every history). Per run the same two audit predicates are evaluated on the real implementation's own order list after every op.",
                 note=BOOK_NOTE),
     "C03": dict(engine="book", design_ref="DESIGN.md 6/C03",
-                technique="Lean 4 proof by induction over operations (ledger append-only, counter = sum of new records, stamps) + ledger audit on real output",
-                text="ledger_step / ledger_run_prefix: for every operation and every history the trade log only grows by a suffix, each new record is stamped with the book time and the counter grows by the sum of new volumes (proved for the model for all states, no bound); per-run ledger audit (conservation per order, sides, limits admit price) on the real implementation's output.",
+                technique="Lean 4 proofs by induction over operations and histories (log append-only, new records well formed against the table, per-order volume conservation, counter = sum of new records), transferred from the reference engine through the refinement + ledger audit on real output",
+                text="new_records_wellformed, volume_conserved_step, volume_conserved_history, ledger_step, ledger_run_prefix: for every reachable state and valid operation every new record has the book time, a positive volume, two different existing orders on opposite sides, the passive order's price and a limit of the aggressor that admits it; every order's remaining volume plus the volume of the new records it takes part in equals the volume the operation explicitly gives it; over histories without explicit volume modification remaining + logged = starting volume. Per-run ledger audit on the real implementation's output.",
                 note=BOOK_NOTE),
     "C04": dict(engine="book", design_ref="DESIGN.md 6/C04",
-                technique="Lean 4 theorems (redundant requests leave the whole model state equal) + lifecycle monitor on real output",
-                text="No-op theorems with full model-state equality for re-placing, cancelling/modifying a non-active order and clock changes, for all states; status-edge/identity/arrival/end-time monitor evaluated on every transition of every order on the real implementation.",
+                technique="Lean 4 invariant proof (every status change of every order over every step of every valid history is an edge of the one-way relation) + no-op theorems with whole-state equality + lifecycle monitor on real output",
+                text="lifecycle_one_way (terminal statuses never change; only the documented edges occur), times_one_operation (arrival time = book time at placement, never changed afterwards; end time set exactly when the order becomes terminal, to the book time), open_orders_have_no_end_time, ids_dense, no-op theorems with full model-state equality for re-placing, cancelling/modifying a non-active order and clock changes; status-edge/identity/arrival/end-time monitor evaluated on every transition of every order on the real implementation.",
                 note=BOOK_NOTE),
     "C05": dict(engine="book", design_ref="DESIGN.md 6/C05",
-                technique="Lean 4 theorems (queue keys are clock-free, stamps strictly increase, survive reload) + tie-heavy differential correspondence",
+                technique="Lean 4 theorems (for every history the keyed queue read in key order is the reference engine's clock-free FIFO list; keys are clock-free, stamps strictly increase, survive reload) + tie-heavy differential correspondence",
                 text="Theorems: the key an order is queued under never depends on the clock, successive insertions get strictly increasing stamps, the stamp counter is monotone through every operation and kept above stored stamps by a reload; the former counterexample is now a proved theorem. Tie-heavy histories are compared with the reference engine (which has no timestamps in its ordering) and all audits.",
-                note=BOOK_NOTE + " The env batch > step size clause is exercised by the env engine when built."),
+                note=BOOK_NOTE + " The env batch > step size clause is exercised on Env/MarketEnv with shadow replay."),
     "C06": dict(engine="book", design_ref="DESIGN.md 6/C06",
-                technique="Lean 4 theorems (dispatch table, reduce keeps queues, replace = dequeue + match + enqueue with next stamp, identity kept) + differential correspondence with drain probes",
-                text="modify_dispatch, reduce_keeps_position (both queue maps literally unchanged), replace_is_reenter, replace_keeps_identity for all states; modify-heavy histories with drain probes are compared against the reference engine and a C06 audit predicate on the real output.",
+                technique="Lean 4 refinement (modify on every reachable state acts as the reference modify; reduction changes one volume only; re-entry is literally the function that places a new limit order; identity kept) + differential correspondence with drain probes",
+                text="modify_is_reference_modify, ref_reduce_keeps_place, ref_replace_is_arrival, ref_place_limit_is_enter, ref_enter_keeps_identity, modify_dispatch, modify_none_none_noop for all states; modify-heavy histories with drain probes are compared against the reference engine and a C06 audit predicate on the real output.",
                 note=BOOK_NOTE),
     "C07": dict(engine="book", design_ref="DESIGN.md 6/C07",
                 technique="Lean 4 theorems about load(save s) + lock-step comparison of original and reloaded real books",
-                text="Theorems: serialised fields come back verbatim, rebuild-loop specification, reload_indistinguishable; concrete round trip by kernel evaluation. Per run: real serde_json round trips (memory, compact file, pretty file) at random points, original and reloaded book driven in lock-step. PARTIAL: load(save s) = s for all reachable s (needs the full invariant) and the truncation clause are not yet proved.",
+                text="load_save: Inv b -> load (save b) = b (the rebuild restores both keyed maps, aggregates and the stamp counter literally), reload_reachable_indistinguishable (every continuation of every reachable state), reload_step_is_identity. Per run: real serde_json round trips (memory, compact file, pretty file; files kept so later saves overwrite) at random points, original and reloaded book driven in lock-step, Market likewise; every strict prefix of sampled snapshot files must be rejected (tested per file, not proved; JSON text opaque).",
                 note=BOOK_NOTE + " serde_json and the file system are opaque."),
     "C12": dict(engine="book", design_ref="DESIGN.md 6/C12",
-                technique="Lean 4 theorems (create_ok_iff, rejected creation leaves state identical, off-grid modify ignored) + grid audit on real output",
-                text="create_ok_iff, create_err_unchanged (whole state equal, no id consumed), modify_offgrid_ignored for all states, tick sizes and prices; per run: malformed-price histories, grid membership of every order and level accounting audited after every op.",
+                technique="Lean 4 theorems (create_ok_iff, rejected creation leaves state identical, off-grid modify ignored) and invariant proof (every price on the grid in every reachable state) + grid audit on real output incl. both ends of the price range",
+                text="create_ok_iff, create_err_unchanged (whole state equal, no id consumed), modify_offgrid_ignored, prices_on_grid_always for all states, tick sizes and prices; per run: malformed-price and edge-price histories (0, tick, .. and .., floor(MAX/tick)*tick), grid membership of every order and level accounting audited after every op through book, market and environments.",
                 note=BOOK_NOTE),
     "C13": dict(engine="book", design_ref="DESIGN.md 6/C13",
                 technique="Lean 4 proof by induction over operations (no trade while disabled), rejection/resting lemmas + audit on real output",
@@ -77,7 +77,7 @@ LEVEL.update({
                 note=ENV_NOTE),
     "C15": dict(engine="book", design_ref="DESIGN.md 6/C15",
                 technique="Lean 4 theorems (shuffle is a permutation, natural in the items, function of the generator state) + exact per-seed permutation prediction against the real shuffle",
-                text="shuffle_perm, shuffle_natural (the position permutation does not depend on what the instructions are), shuffle_by_positions, step_deterministic for all lists and generator states. Per run the model's predicted permutation equals the real one for every seed and batch size and the generator must have advanced by exactly one shuffle. PARTIAL: uniformity (bijection draw-vectors <-> permutations, n! count) not yet proved; PRNG statistical quality is trusted.",
+                text="shuffle_perm, shuffle_natural (the position permutation does not depend on what the instructions are), shuffle_by_positions, step_deterministic for all lists and generator states. shuffle_is_draws + shuffle_outcomes_are_all_permutations_once: the real shuffle is the explicit-draw loop on bounded draws, and over all n! valid draw vectors that loop yields every permutation of a duplicate-free batch exactly once (so uniform independent draws give probability 1/n! per order). Per run the model's predicted permutation equals the real one for every seed and batch size and the generator must have advanced by exactly one shuffle. PARTIAL: uniformity/independence of the generator's draws (PRNG quality) is trusted. Props/C15 imports two Mathlib modules.",
                 note=ENV_NOTE),
 })
 
@@ -104,7 +104,7 @@ LEVEL.update({
                 note=SIM_NOTE + " Props/C17 imports three Mathlib modules."),
     "C20": dict(engine="sim", design_ref="DESIGN.md 6/C20",
                 technique="Lean 4 theorems on the macro template translated from source each run (one update per named field in declaration order; derived = fold over leaves in preorder, nested sets included) + compiled struct shapes with probe agents vs hand-written sequence vs model prediction",
-                text="template_is_model (decide on the translated macro source), derive_calls, derived_eq_handwritten (mutual induction over nested sets), probeDraws_log. Per run 40 struct shapes (both macros, 1-8 fields, nested, non-alphabetical names, with/without trailing comma) compiled with the real macros are compared call-by-call and draw-by-draw with the hand-written sequence and with the Lean prediction.",
+                text="template_is_model (decide on the translated macro source), derive_calls, derived_eq_handwritten (mutual induction over nested sets), probeDraws_log. Per run 48 struct shapes (both macros, 1-8 fields, nested, non-alphabetical names, with/without trailing comma, declared literally or through a macro_rules! helper) compiled with the real macros are compared call-by-call and draw-by-draw with the hand-written sequence and with the Lean prediction.",
                 note=SIM_NOTE),
 })
 
